@@ -510,6 +510,17 @@ func (e *Engine) havocLoop(fr *Frame, st *State, hdr *ssa.BasicBlock, c *Contrac
 			ks, vs := e.reg.sortOf(mt.Key()), e.reg.sortOf(mt.Elem())
 			keys[e.keyMapP(ks, vs)] = true
 			keys[e.keyMapV(ks, vs)] = true
+		case *ssa.Next:
+			if !y.IsString {
+				if r, ok := y.Iter.(*ssa.Range); ok {
+					if mt, ok := r.X.Type().Underlying().(*types.Map); ok {
+						ks := e.reg.sortOf(mt.Key())
+						keys[e.keyIterV(ks)] = true
+						keys[e.keyIterP(ks)] = true
+						keys[e.keyIterC()] = true
+					}
+				}
+			}
 		case *ssa.Alloc:
 			e.allocKeys(y.Type().(*types.Pointer).Elem(), keys)
 		case *ssa.MakeSlice:
